@@ -148,6 +148,18 @@ func (w *W) parseGuarded(b []byte, cfg Config, nd bool, fresh bool) (pj *simdjso
 		pj, err = w.parse(b, cfg, nd, fresh)
 		return nil
 	})
+	// The exported slices of a result are ordinary slices. A slice whose length exceeds its capacity
+	// can only come from the assembly string kernel having been handed a destination that was too
+	// small for what it stored (it returns the new length; stores beyond a heap allocation fault
+	// nowhere). Reported like a panic: the call wrote outside its buffers.
+	if pan == nil && err == nil && pj != nil {
+		if pj.Strings != nil && len(pj.Strings.B) > cap(pj.Strings.B) {
+			pan = fmt.Errorf("write outside the string buffer: Strings.B has length %d and capacity %d after the call", len(pj.Strings.B), cap(pj.Strings.B))
+		}
+		if len(pj.Tape) > cap(pj.Tape) {
+			pan = fmt.Errorf("Tape has length %d and capacity %d after the call", len(pj.Tape), cap(pj.Tape))
+		}
+	}
 	return
 }
 
